@@ -21,6 +21,7 @@ EXPLANATION = (
     "FLOW: enable_eom_mode/modify_eom_setpoint record the computed detuning_off. NOT decided: behavioural equality of the decoded sequence (runtime). ARGS: the serializer reads a recorded call's positional arguments by constant index only where the argument must be positional (no default, keyword form excluded on that path). TABLE/GUARD (added): the three PulserSequence alternatives of the schema allow the same properties and every top-level key the serializer emits; an argument whose default is None is tested with `is (not) None`, never for truthiness; a default is stored into the mapping whose entry was tested for None. Round 3 (added): every operator name of UNARY_OPERATORS/BINARY_OPERATORS decodes to the function of that name and no two names share a function; a keyword of a recorded call is read only where the parameter cannot have been passed positionally (dual of ARGS)."
     " Round 4 (added): ORDER -- in the deserializer's replay (helpers inlined, source order) no Sequence method decorated with block_if_measured follows the replayed measure; LEGACY-TABLE -- every class named as '__submodule__' by the legacy encoder (owner of a @parametrize classmethod, concrete register classes) is in SUPPORTS_SUBMODULE; IDS -- no numpy array is built from a QubitId-typed argument in the (de)serializer, unfold_targets unwraps array-like (built) targets before its scalar/collection dispatch, and both ParamObj encoders read args[0] only under a test that a positional argument exists."
     ' Round 5 (added): no silent truncation when ParamObj pairs signature names with positional arguments; both encoders of a variable item convert a slice key; both JSON encoders convert np.integer and np.floating; the legacy decoder derives _building from to_build_calls.'
+    " Round 6 (added after the fifth independent round of breaking changes): PulserDecoder.object_hook replays obj['calls'] before _building is restored and obj['to_build_calls'] after; VariableItem._to_dict expands a slice over the variable's size."
 )
 ASSUMPTIONS = [
     "the serializer's branch bodies use the idioms the abstract interpreter knows (dict literals, get_all_args, remove_kwarg_if_default, op_dict[k]=v, update); an unknown idiom is an ANALYSIS-ERROR, not a pass",
